@@ -62,8 +62,15 @@ func (P *Prog) VerifyFunc(f *ssa.Function, c *Contract) *Trans {
 		n := fmt.Sprintf("fv!%d!%s", i, smtSym(fv.Name()))
 		t.emit(fmt.Sprintf("(declare-const %s %s)", n, t.env.SortOf(fv.Type())))
 		fr.freeVars = append(fr.freeVars, n)
-		if _, isPtr := fv.Type().Underlying().(*types.Pointer); isPtr {
+		if pt, isPtr := fv.Type().Underlying().(*types.Pointer); isPtr {
 			t.assume("true", fmt.Sprintf("(and (not (= %s null)) (isobj %s))", n, n))
+			if P.finalFV[fv] {
+				k := fmt.Sprintf("fvval!%d!%s", i, smtSym(fv.Name()))
+				t.emit(fmt.Sprintf("(declare-const %s %s)", k, t.env.SortOf(pt.Elem())))
+				t.assume("true", t.wfOf(k, pt.Elem(), st0))
+				fr.fvFinal[i] = k
+				t.evalTerms = append(t.evalTerms, k)
+			}
 		}
 		t.assume("true", t.wfOf(n, fv.Type(), st0))
 	}
@@ -204,7 +211,7 @@ var wellKnownSym = []string{
 	"TY_float32", "TY_float64", "TY_string", "TY_bool",
 	"TY_slice", "TY_map", "TY_time", "TY_bytes",
 	"TY_ltime", "TY_field", "TY_unary", "TY_binary", "TY_not", "TY_matchfunc", "TY_document",
-	"TY_errorString",
+	"TY_errorString", "TY_strslice", "TY_docslice",
 }
 
 func (t *Trans) Query(o *Oblig) string {
